@@ -85,6 +85,18 @@ def c07_exhaustive(tier):
             yield f'P g {gens.hx("pkg:t/n#" + s)}'
             if k <= 3:
                 yield f'P t {gens.hx("pkg:npm/" + s + "/n#" + s)}'
+    # white space and escaped slashes at the edges of a segment (sanitise-after-validate slips)
+    pieces2 = ['a', '..%20', '%20', ' .', '%09..', '.. ', 'a%2F', '%2Fa', '%2f', '.%20.', '%0A..%0D', '\u3000..']
+    for k in range(1, 4):
+        for w in itertools.product(pieces2, repeat=k):
+            s = '/'.join(w)
+            yield f'P g {gens.hx("pkg:t/" + s + "/n")}'
+            yield f'P g {gens.hx("pkg:t/n#" + s)}'
+            if k <= 2: yield f'P t {gens.hx("pkg:npm/" + s + "/n#" + s)}'
+    for tail in ['/', '//', '/@1', '//@1.0', '/?k=v', '/#s']:
+        for body in ['ns/name', 'a/b/name', 'name', 'a//name']:
+            yield f'P g {gens.hx("pkg:t/" + body + tail)}'
+            yield f'P t {gens.hx("pkg:golang/" + body + tail)}'
 PROPS['C07'] = dict(
     theorems=['C07_generic_purl', 'C07_typed_purl'],
     accepts=lambda c: c[0] in 'PS' and kind_of(c) in 'gst',
@@ -156,6 +168,7 @@ PROPS['C05'] = dict(
 )
 # ------------------------------------------------------------------ C06
 def c06_proj(c, line, is_impl):
+    if line == 'HANG': return ('HANG',)          # the harness watchdog: the call did not return
     if c[0] == 'Q':
         outs = line.split('|')[0].split(',')
         return tuple(i for i, o in enumerate(outs) if o == 'PANIC')
@@ -174,7 +187,7 @@ def c06_long(rng, n):
     base = gens.corpus_strings()
     for i in range(n):
         s = rng.choice(base)
-        big = rng.choice(['a', '/', '%41', 'é', '&k=v', '/..', '%2F', ',a:00', '@', '#', '?']) * rng.choice([1000, 20000, 150000])
+        big = rng.choice(['a', '/', '%41', 'é', '&k=v', '/..', '%2F', ',a:00', '@', '#', '?']) * rng.choice([1000, 6000, 25000])
         pos = rng.randint(0, len(s))
         yield f'P {rng.choice("gt")} {gens.hx(s[:pos] + big + s[pos:])}'
 def c06_extra(cases, impl, model, run_sharded, HAR, CACHE, pid):
@@ -196,7 +209,7 @@ PROPS['C06'] = dict(
                                 gens.gen_qops(rng, Q(tier, 3000, 50000)), gens.gen_cs(rng, Q(tier, 3000, 50000)), gens.gen_pt(rng, 500, 2), gens.gen_comb(rng, 500),
                                 c06_odd(rng), gens.gen_types(), gens.gen_slot(('g', 't')), gens.gen_shape(rng, 500), c06_long(rng, Q(tier, 0, 60))),
     project=c06_proj,
-    rule='every case of every other stream runs under catch_unwind in a build with overflow checks and debug assertions; the observable is where PANIC occurs; '
+    rule='every case of every other stream runs under catch_unwind in a build with overflow checks and debug assertions; the observable is where PANIC occurs (and HANG: a watchdog in the harness ends a call that has not returned after 10 s); '
          'documented panics (Index of an absent key, insert_typed with an invalid KEY, Display of an invalid user type) are predicted by the model',
     assumptions=['panics inside dependencies (smartstring, percent-encoding, hex, phf, unicase, std), allocation failure and stack exhaustion are outside the model'],
 )
@@ -361,12 +374,30 @@ PROPS['C14'] = dict(
          'plus random members and spellings; call log (arguments included), result and accessors compared with the model instantiated at the same member',
 )
 # ------------------------------------------------------------------ C15
+def c15_purls(rng, n):
+    # the type as it is spelled inside a PURL string: case variants, percent-encoded letters, padded, look-alikes
+    def enc(name, i): return name[:i] + '%%%02X' % ord(name[i]) + name[i + 1:]
+    for name in gens.SEVEN:
+        for v in [name, name.upper(), name.capitalize(), name.swapcase()] + [enc(name, i) for i in range(len(name))] + [enc(name.upper(), 0), '%' + name, name + '%20', name + '%', ' ' + name, name + ' ',
+                  ''.join('%%%02x' % ord(ch) for ch in name), name + '.', name[:-1], name + name[-1], name.replace('m', 'ｍ').replace('g', 'ɡ')]:
+            for rest in ['/n', '/g/n@1', '/g/n?k=v#s']:
+                yield f'P t {gens.hx("pkg:" + v + rest)}'
+                yield f'P g {gens.hx("pkg:" + v + rest)}'
+    for _ in range(n):
+        name = rng.choice(gens.SEVEN); i = rng.randrange(len(name))
+        v = ''.join(rng.choice([ch, ch.upper(), '%%%02X' % ord(ch), '%%%02x' % ord(ch.upper())]) if rng.random() < 0.4 else ch for ch in name)
+        yield f'P t {gens.hx("pkg:" + v + "/g/n")}'
+def c15_proj(c, line, is_impl):
+    if c[0] == 'T': return line
+    f = fields(trip(line)[0])
+    return f[0] if f else 'E'         # accepted with which type, or refused (which error is C05's)
 PROPS['C15'] = dict(
-    accepts=lambda c: c[0] == 'T',
-    gen=lambda tier, rng: gens.gen_pt(rng, Q(tier, 5000, 100000), Q(tier, 3, 4)),
-    project=whole, exhaustive=False,
+    accepts=lambda c: c[0] == 'T' or (c[0] == 'P' and kind_of(c) in 'gt'), corpus=False,
+    gen=lambda tier, rng: chain(gens.gen_pt(rng, Q(tier, 5000, 100000), Q(tier, 3, 4)), c15_purls(rng, Q(tier, 3000, 30000))),
+    project=c15_proj, exhaustive=False,
     rule='exhaustive: all 192 case variants of the 7 names; every string of length <= 3 (thorough 4) over the letters of the names plus look-alikes '
-         '(long s, Kelvin sign, dotless i, dotted I, full-width letters, sharp s); one-edit neighbours; the other PURL type names; random strings',
+         '(long s, Kelvin sign, dotless i, dotted I, full-width letters, sharp s); one-edit neighbours; the other PURL type names; random strings; '
+         'the type as spelled inside a PURL string (case variants, percent-encoded letters, padding, look-alikes) through Purl::from_str and GenericPurl::from_str',
 )
 # ------------------------------------------------------------------ C16 (needs the serde build)
 def serde_extra(cases, impl, model, run_sharded, HAR, CACHE, pid):
@@ -440,11 +471,21 @@ def c18_proj(c, line, is_impl):
     if c[0] == 'M': return line if not line.startswith('E ') else 'E'
     f = line.split('|')
     return tuple(f[:2]) + (('E',) if len(f) == 3 else tuple(f[2:]))
+def c18_compare(c, a, m):
+    # M cases: the parse of the string is C01/C02/C08's; C18 compares what combined_name and the re-split make of the SAME parsed value
+    if c[0] == 'M':
+        if a.startswith('E ') or m.startswith('E '): return 'skip' if a.startswith('E ') else 'mismatch'
+        fa, fm = a.split('|'), m.split('|')
+        if fa[:3] != fm[:3]: return 'mismatch'
+        return fa[3:] == fm[3:]
+    return c18_proj(c, a, True) == c18_proj(c, m, False)
+c18_compare.obs = lambda c, a: c18_proj(c, a, True)
 PROPS['C18'] = dict(
+    compare=c18_compare,
     accepts=lambda c: c[0] in 'NM',
     gen=lambda tier, rng: chain(gens.gen_comb(rng, Q(tier, 30000, 400000)), gens.gen_comb_purl(rng, Q(tier, 10000, 100000))),
-    project=c18_proj,
-    rule='combined names with any number of "/" and ":" for the seven types (20 fixed shapes each, random strings); split, built PURL, combined_name and its re-split compared',
+    rule='combined names with any number of "/" and ":" for the seven types (20 fixed shapes each, random strings); split, built PURL, combined_name and its re-split compared; '
+         'typed PURLs parsed from strings (with version, qualifiers, subpath): combined_name() and its re-split compared on the same parsed value',
 )
 # ------------------------------------------------------------------ C19
 PROPS['C19'] = dict(
